@@ -7,7 +7,7 @@ import refmodel
 
 ID = 'C08'
 DOMAIN = 'selmap+gin'
-PROPS_FILES = ['Gin/Props/C08.lean', 'Gin/Props/C08b.lean']
+PROPS_FILES = ['Gin/Props/C08.lean', 'Gin/Props/C08b.lean', 'Gin/Props/C08c.lean']
 ANCHOR_FILES = ['selector_map.py', 'config.py']
 RULE = ('histories of 20-60 SelectorMap operations (set/pop/copy/clear + queries) on up to 3 live maps, '
         'names over a 3-letter component alphabet with 1-4 components; non-trivial = at least 2 live names '
@@ -275,6 +275,12 @@ def gen_reported_case(rng):
 
 
 def gen_cases(rng, tier, boost=1):
+  # names of several hundred components: a copy shares nothing with its original here either (and can be made at all)
+  for depth in (300, 700, 1500):
+    deep = '.'.join(['d%d' % (i % 7) for i in range(depth)])
+    yield {'dom': 'selmap', 'ops': [['new', 0], ['set', 0, deep, 1], ['set', 0, 'x.y', 2], ['copy', 0, 1], ['set', 1, 'q.' + deep, 3],
+                                    ['pop', 1, 'x.y'], ['len', 0], ['len', 1], ['match', 0, 'y'], ['match', 1, 'y'],
+                                    ['get', 0, deep], ['contains', 1, 'q.' + deep], ['contains', 0, 'q.' + deep]]}
   for k in range((150 if tier == 'quick' else 4000) * boost):
     yield gen_reported_case(rng)
   n = (400 if tier == 'quick' else 6000) * boost
